@@ -51,6 +51,10 @@ CLAIMED = {
    text="Sequential contracts of the property register: objectImpl.SetProperty runs the service's validator exactly once before anything is stored (mid-body assertion at the store), stores only a value whose signature matches the declared one (assertion), emits a change event only after the store and exactly one for an accepted write carrying the property's id; a rejected write emits nothing; saveProperty stores exactly the named entry under the write lock; Property returns the stored value of the named entry under the read lock; guard and lock-state obligations on the property table; signalHandler.UpdateProperty counts the emitted event.",
    note="Linearizable-register reading under concurrent writers is NOT decided: validate / save / notify are not one critical section. stubObject.UpdateProperty (service-side updates) and the generated onPropertyChange decoders are not under contract. The validator and Value.Signature are abstract; ghost counters are assumed untouched by uncontracted callees.",
    technique="contract-based deductive verification with ghost validator/event counters and monitor invariant, SMT", ref="7 C14"),
+ "C20": dict(level="other",
+   text="Contracts on conversion.convertFrom / convertSlice / convertMap / convertStruct / AsInt64 / isUnsigned over a thin model of package reflect (values are opaque tokens; kind is a function of the token; length and scalar content are ghost state; rfrom is specification-only provenance). Proved for every pair of tokens and every content: a successful conversion leaves in a bool/string/integer destination exactly the source's value (integers as mathematical numbers: no truncation or wrap-around), refuses kinds outside {bool-bool, string-string, integer-integer, float-float, slice-slice, map-map, struct-struct}; a slice gets the source's length and element i is the conversion of the source's element i; the pair stored into a map is (conversion of key k, conversion of w[k]) (assertion at SetMapIndex); a struct field is converted from the first source field with the same lower-case name (assertions at the recursive call); pointers are followed on both sides; nothing outside the destination changes (quantified frame clauses proved through the recursion and all loops).",
+   note="Level 'other': the proof is relative to the thin reflect model in trusted/reflect.spec (an assumed contract per reflect method, tokens as access paths, no aliasing between the two arguments, settability/nil panics and termination on cyclic types not modelled); 'converting back recovers the source' is not stated separately. KNOWN FINDINGS (deviations from the statement's strict reading that the pinned tests require or that a maintainer would not obviously accept to change): integers of different signedness or a wider source are accepted when the value fits; float64 is accepted into float32 (rounded). ConvertFrom/DecodeFrom/EncodeInto wrappers are not under contract.",
+   technique="contract-based deductive verification over an assumed thin model of reflect (ghost provenance, quantified frames), SMT", ref="7 C20"),
  "C10": dict(level="other",
    text="Mechanism obligations only: Message.Write issues exactly one Write with the whole frame on an accepting stream (and none when the size check fails); endPoint.Send calls it once on the endpoint's stream; endPoint.process reads one message and dispatches it synchronously before the next read (ghost read/dispatch counters asserted at both call sites, so a `go dispatch` or a reordering fails); dispatch runs under handlersMutex (guard obligations) and offers the message to the live handlers in slot order with a non-blocking send.",
    note="Assumed, not decided: a single Write on each supported transport is atomic with respect to concurrent Writes and the stream is FIFO; goroutine schedules; 'each handler receives exactly the subsequence its filter selects' is argued from the synchronous loop plus the per-handler queue, not machine-checked.",
